@@ -114,6 +114,53 @@ def strict_origin_sweep(ctx: Ctx, eng: morph.Engine):
                 ctx.fail(f"strict-origin:probe:{hint!r}", f"strict retort accepts {d!r} for {hint!r}", {"hint": repr(hint), "datum": repr(d)})
 
 
+def derived_retort_probes(ctx: Ctx):
+    """strict and lax retorts DERIVED from one another (replace / extend, with and without other options in the same call), used
+    in either order: the strict one still rejects everything outside the allowed strict origins, whatever its lax sibling has
+    already loaded, and the lax one still accepts it"""
+    import dataclasses
+    import itertools
+
+    from adaptix import DebugTrail, Retort
+
+    @dataclass_point()
+    class Point:
+        x: int
+        y: int
+    probes = [(int, "1"), (list[int], "12"), (list[str], {"a": 1}), (tuple[str, str], "ab"), (Point, {"x": "1", "y": "2"}),
+              (float, "1.5"), (bool, 1), (dict[str, int], {"a": "1"})]
+    derivations = {
+        "replace(strict)": lambda r, s: r.replace(strict_coercion=s),
+        "replace(strict, hide_traceback)": lambda r, s: r.replace(strict_coercion=s, hide_traceback=False),
+        "replace(strict, debug_trail)": lambda r, s: r.replace(strict_coercion=s, debug_trail=DebugTrail.FIRST),
+        "replace(strict).extend([])": lambda r, s: r.replace(strict_coercion=s).extend(recipe=[]),
+        "replace(hide).replace(strict)": lambda r, s: r.replace(hide_traceback=True).replace(strict_coercion=s),
+    }
+    for (dname, derive), parent_strict, lax_first in itertools.product(derivations.items(), (True, False), (True, False)):
+        parent = Retort(strict_coercion=parent_strict)
+        child = derive(parent, not parent_strict)
+        strict, lax = (parent, child) if parent_strict else (child, parent)
+        case = {"probe": "derived-retorts", "derivation": dname, "parent_strict": parent_strict, "lax_first": lax_first}
+        ctx.note_case(case, nontrivial=True, kind="derived-retorts")
+        for hint, d in probes:
+            outs = {}
+            for which in (("lax", "strict") if lax_first else ("strict", "lax")):
+                outs[which] = morph.run_real((lax if which == "lax" else strict).get_loader(hint), d)["r"]
+            if outs["strict"] == "ok":
+                ctx.fail("strict-origin:derived-retort", f"the strict retort of a pair derived by {dname} (parent strict={parent_strict}, "
+                         f"{'lax' if lax_first else 'strict'} one used first) accepts {d!r} for {hint!r}", dict(case, hint=repr(hint), datum=repr(d)))
+                return
+            if outs["lax"] != "ok":
+                ctx.fail("lax-derived-retort", f"the lax retort of a pair derived by {dname} (parent strict={parent_strict}, "
+                         f"{'lax' if lax_first else 'strict'} one used first) rejects {d!r} for {hint!r}", dict(case, hint=repr(hint), datum=repr(d)))
+                return
+
+
+def dataclass_point():
+    import dataclasses
+    return dataclasses.dataclass
+
+
 def literal_matrix(ctx: Ctx, eng: morph.Engine):
     """every Literal over {True, False, 0, 1, 2, 'a', '1'} (non-empty subsets) x look-alike data x modes, strict and lax:
     the strict loader of a bool/0/1-sensitive Literal accepts exactly the data equal to a case OF THE SAME EXACT TYPE;
@@ -161,6 +208,7 @@ def run(ctx: Ctx):
     eng = morph.Engine(ctx)
     strict_origin_sweep(ctx, eng)
     literal_matrix(ctx, eng)
+    derived_retort_probes(ctx)
     specs = eng.gen_specs(ctx.budget(140, 2000), 3 if ctx.tier == "quick" else 4)
     recs = eng.load_records(specs, suite="load", n_valid=2, n_corrupt=3, n_hostile=2)
     for rec in recs:
@@ -179,6 +227,7 @@ def search(ctx: Ctx):
     eng.drv = None
     strict_origin_sweep(ctx, eng)
     literal_matrix(ctx, eng)
+    derived_retort_probes(ctx)
     if not ctx.failures:
         for rec in eng.load_records(eng.gen_specs(1500, 4), n_valid=2, n_corrupt=4, n_hostile=3):
             oracle_pair(ctx, eng, rec)
@@ -189,4 +238,5 @@ def replay(ctx: Ctx, case) -> bool:
     before = len(ctx.failures)
     strict_origin_sweep(ctx, eng)
     literal_matrix(ctx, eng)
+    derived_retort_probes(ctx)
     return len(ctx.failures) > before
